@@ -19,8 +19,9 @@ inductive SStmt where
   | dim (x : Nat) (t : Ty) (p : Pos)
   | assign (x : Nat) (t : Ty) (e : Ast.Expr) (p : Pos)
   | print (items : List PrintItem) (p : Pos)
-  | data (items : List Val) (p : Pos)
-  | read (vars : List (Nat × Ty)) (p : Pos)
+  /-- every DATA item and READ variable carries its own position (the argument's) -/
+  | data (items : List (Val × Pos)) (p : Pos)
+  | read (vars : List (Nat × Ty × Pos)) (p : Pos)
   /-- `hasElse = false`: no ELSE part (then `els = skip`) -/
   | ifBlock (c : Ast.Expr) (thn : SStmt) (elifs : ElseIfs) (hasElse : Bool) (els : SStmt) (p : Pos)
   | select (e : Ast.Expr) (cases : SCases) (hasElse : Bool) (els : SStmt) (p : Pos)
@@ -44,9 +45,9 @@ structure SProgram where
 
 /-! ### desugaring to `Ast.Stmt` -/
 
-def readSeq (p : Pos) : List (Nat × Ty) → Stmt
+def readSeq (p : Pos) : List (Nat × Ty × Pos) → Stmt
   | [] => .skip
-  | (x, t) :: rest => .seq (.read x t p) (readSeq p rest)
+  | (x, t, _) :: rest => .seq (.read x t p) (readSeq p rest)
 
 mutual
 def desugar : SStmt → Stmt
@@ -75,7 +76,7 @@ end
 /-- DATA items in program order (only top-level statements carry DATA) -/
 def dataOf : SStmt → List Val
   | .seq a b => dataOf a ++ dataOf b
-  | .data items _ => items
+  | .data items _ => items.map (·.1)
   | _ => []
 
 def SProgram.toAst (sp : SProgram) : Program :=
@@ -91,10 +92,14 @@ partial def sstmt? : Sexp → Option SStmt
       pure (.assign (← x.nat?) (← ty? t) (← expr? e) (← pos? r c))
   | .list [.atom "print", .list items, r, c] => do
       pure (.print (← items.mapM item?) (← pos? r c))
-  | .list [.atom "data", .list items, r, c] => do pure (.data (← items.mapM val?) (← pos? r c))
+  | .list [.atom "data", .list items, r, c] => do
+      let its ← items.mapM fun it => match it with
+        | .list [v, ir, ic] => do pure ((← val? v), (← pos? ir ic))
+        | _ => none
+      pure (.data its (← pos? r c))
   | .list [.atom "read", .list vars, r, c] => do
       let vs ← vars.mapM fun v => match v with
-        | .list [x, t] => do pure ((← x.nat?), (← ty? t))
+        | .list [x, t, vr, vc] => do pure ((← x.nat?), (← ty? t), (← pos? vr vc))
         | _ => none
       pure (.read vs (← pos? r c))
   | .list [.atom "if", cnd, thn, .list elifs, els, r, c] => do
